@@ -127,7 +127,8 @@ func buildCLI() (string, error) {
 	repo := repoDir()
 	bin := filepath.Join(ev.Root, ".bin", "origami-cli-c05")
 	if repo != "/repo" {
-		bin += fmt.Sprintf(".%x", md5.Sum([]byte(repo)))[:9]
+		// same tag as vcheck / tools/trymutant.sh (`echo "$REPO" | md5sum | cut -c1-8`) so their clean-up finds it
+		bin += fmt.Sprintf(".%x", md5.Sum([]byte(repo+"\n")))[:9]
 	}
 	os.MkdirAll(filepath.Dir(bin), 0o755)
 	cmd := exec.Command("go", "build", "-o", bin, repo)
